@@ -880,6 +880,14 @@ def c09(r):
     # cold start: each of 16 calls as the very first library call of its own process, then again warm
     ch_c = r.drive("c09cold", maxlines=0, shards=16)
     r.validate("Trace_Cache", ch_c)
+    # first use by many goroutines at once: fresh processes, goroutines released together before every accessor
+    ch_f1 = r.drive("c09first", maxlines=0, shards=16 if thorough else 8, args={"g": 16})
+    if ch_f1:
+        r.validate("Trace_Cache", ch_f1)
+        def first_mut(e):
+            e["rows"][3][1] = "0" * 16
+            return True
+        r.negctl("Trace_Cache", ch_f1[0], {"C09First": [(first_mut, "C09.result.independent-of-concurrent-first-use")]}, per_kind=1)
     # the same battery in four processes, four orders; the plan only ASSEMBLES their reports into one event for TLC
     ch_o = r.drive("c09orders", maxlines=0, shards=4)
     procs = []
@@ -940,8 +948,14 @@ def c09(r):
         return False
     def pure_res(e):
         for row in reversed(e["rows"]):
-            if row[2] != ALONE:
+            if row[2] not in (ALONE, "written through"):
                 row[6] = "0" * 12
+                return True
+        return False
+    def pure_written(e):
+        for row in e["rows"]:
+            if row[2] == "written through":
+                row[4] = "0" * 12
                 return True
         return False
     def pure_alone(e):
@@ -951,7 +965,8 @@ def c09(r):
                 return True
         return False
     r.negctl("Trace_Cache", ch_p[:2], {"C09Pure": [(pure_recv, "C09.pure.call-changes-its-receiver"), (pure_res, "C09.pure.same-call-different-result"),
-                                                    (pure_alone, "C09.pure.result-depends-on-earlier-accessors")]}, per_kind=1)
+                                                    (pure_alone, "C09.pure.result-depends-on-earlier-accessors"),
+                                                    (pure_written, "C09.pure.handed-out-object-is-not-the-callers-own")]}, per_kind=1)
     # the library as one state machine (Session.tla): TLC enumerates client sessions, real objects replay them
     r.mc("MC_Session", "MC_Session_5" if thorough else "MC_Session", timeout=900)
     sessions = r.export_edges("MC_Session", "MBT_Session")
